@@ -29,7 +29,7 @@ def cmdCli (args : List String) : String :=
         go s' es acc
     let (s, sent) := go {} evs []
     let showL (l : List Tag) := if l.isEmpty then "-" else ",".intercalate (l.map showTag)
-    s!"{" ".intercalate sent} | wire={showL s.wire} epochs={";".intercalate (s.epochs.map showL)} failed={showNatList s.failed} pending={showNatList s.pending} next={s.nextId} alive={b01 s.alive} gate={b01 s.gate}"
+    s!"{" ".intercalate sent} | wire={showL s.wire} epochs={";".intercalate (s.epochs.map showL)} failed={showNatList s.failed} pending={showNatList s.pending} next={s.nextId} alive={b01 s.alive} gate={b01 s.gate} closed={showNatList s.closedT}"
   | none => "bad-op"
 
 /-- `setup ka=<us> life=<us> denc=<hex> mdenc=<hex> lease=<0|1> d=<hex> md=<hex>` -/
